@@ -31,19 +31,20 @@ Definition run_c10_local (s : sx) : sx :=
 
 Definition subsetb (a b : list nat) : bool := forallb (fun x => existsb (Nat.eqb x) b) a.
 
-(* [cards rows nodes edges ess] -> [k2 bdeu bds bic aic] of score(model) as coded;
-   error 1 = malformed data; error 2 = node set differs from the column set (structure_score) *)
+(* [cards rows nodes edges ess] -> [same_node_set ; [k2 bdeu bds bic aic] of score(model) as coded];
+   same_node_set = set(nodes) == set(columns) (structure_score raises ValueError otherwise);
+   error 1 = malformed data / node that is not a column *)
 Definition run_c10_total (s : sx) : sx :=
   match s with
   | SL [sc; sr; sn; sed; se] =>
       match dec_data sc sr, sx_list sx_nat sn, sx_list (sx_pair sx_nat sx_nat) sed, sx_Qc se with
       | Some (cards, d), Some nodes, Some edges, Some ess =>
-          if negb (valid_data cards d) then sx_err 1
-          else if negb (subsetb nodes (seq 0 (length cards)) && subsetb (seq 0 (length cards)) nodes)
-          then sx_err 2
+          if negb (valid_data cards d && valid_vars cards nodes
+                   && valid_vars cards (map fst edges) && valid_vars cards (map snd edges)) then sx_err 1
           else
             let scs := [K2; BDeu ess; BDs ess; BIC; AIC] in
-            sx_ok (of_list (fun sc => of_fsum (total_score cards d sc nodes edges)) scs)
+            sx_ok (SL [ of_bool (subsetb nodes (seq 0 (length cards)) && subsetb (seq 0 (length cards)) nodes);
+                        of_list (fun sc => of_fsum (total_score cards d sc nodes edges)) scs ])
       | _, _, _, _ => bad_request
       end
   | _ => bad_request
